@@ -38,8 +38,12 @@ func OpenSim(disk *simfs.Disk, c Cfg) (*wal.WAL, error) {
 	if mc == nil {
 		mc = &metrics.NoOpCollector{}
 	}
-	return wal.Open("sim", wal.WithSegmentFiler(sf), wal.WithMetaStore(meta), wal.WithSegmentSize(c.SegSize),
+	w, err := wal.Open("sim", wal.WithSegmentFiler(sf), wal.WithMetaStore(meta), wal.WithSegmentSize(c.SegSize),
 		wal.WithMetricsCollector(mc), wal.WithLogger(nullLog), wal.WithCodec(c.Codec))
+	if err == nil {
+		hooks.Track(w)
+	}
+	return w, err
 }
 
 // OpenDir opens a WAL on a real directory with the production fs and bolt.
@@ -48,7 +52,11 @@ func OpenDir(dir string, c Cfg) (*wal.WAL, error) {
 	if mc == nil {
 		mc = &metrics.NoOpCollector{}
 	}
-	return wal.Open(dir, wal.WithSegmentSize(c.SegSize), wal.WithMetricsCollector(mc), wal.WithLogger(nullLog), wal.WithCodec(c.Codec))
+	w, err := wal.Open(dir, wal.WithSegmentSize(c.SegSize), wal.WithMetricsCollector(mc), wal.WithLogger(nullLog), wal.WithCodec(c.Codec))
+	if err == nil {
+		hooks.Track(w)
+	}
+	return w, err
 }
 
 // Store is the API surface the oracles use.
